@@ -318,11 +318,14 @@ def floors(tier, counters, evaluations):
     if counters.get("compared", 0) < 0.3 * evaluations:
         miss.append("only %d of %d histories compared" % (counters.get("compared", 0), evaluations))
     writers = set(k.split(":", 1)[1].split("|")[0] for k in counters if k.startswith("cell:"))
-    for w in ("set_mem instruction", "set_mem byte", "set_u8"):
-        if w not in writers:
-            miss.append("writer '%s' never exercised" % w)
-    if not any(w.startswith("guest store") for w in writers):
-        miss.append("guest store writer never exercised")
-    if "multi-write history" not in writers:
-        miss.append("multi-write histories never compared")
+    base_writers = set(w.split(" + ")[0] for w in writers)
+    if "set_mem instruction" not in base_writers:
+        miss.append("writer 'set_mem instruction' never exercised")
+    if len(base_writers & {"set_mem byte", "set_u8", "set_u16", "set_u32"}) < 2:
+        miss.append("fewer than two partial-byte host writers exercised")
+    if evaluations >= 150:
+        if not any(w.startswith("guest store") for w in writers):
+            miss.append("guest store writer never exercised")
+        if "multi-write history" not in writers:
+            miss.append("multi-write histories never compared")
     return miss
